@@ -195,18 +195,26 @@ func Load(repo string, extraSpecs []string) (*Ctx, error) {
 		}
 	}
 	// pre-register all types so that heap components are known up front
+	// (in a deterministic order: scripts must be reproducible for the cache)
 	for _, p := range pkgs {
+		seen := map[string]types.Type{}
 		for _, tv := range p.TypesInfo.Types {
-			if tv.Type != nil && !tv.IsType() || tv.IsType() {
-				if tv.Type != nil {
-					safeSort(ctx.reg, tv.Type)
-				}
+			if tv.Type != nil {
+				seen[types.TypeString(tv.Type, nil)] = tv.Type
 			}
 		}
 		for _, o := range p.TypesInfo.Defs {
 			if o != nil && o.Type() != nil {
-				safeSort(ctx.reg, o.Type())
+				seen[types.TypeString(o.Type(), nil)] = o.Type()
 			}
+		}
+		keys := make([]string, 0, len(seen))
+		for k := range seen {
+			keys = append(keys, k)
+		}
+		sort.Strings(keys)
+		for _, k := range keys {
+			safeSort(ctx.reg, seen[k])
 		}
 	}
 	return ctx, nil
